@@ -7,8 +7,8 @@ import GmqttVerif.Model.Fed.Topic
 
   The federation subscription tree (`fedSubStore`, a `mem.TrieDB` keyed by node name) is modelled by its
   SPECIFICATION: a set of (node, shareName, topicFilter).  `Subscribe` inserts, `Unsubscribe` erases,
-  `UnsubscribeAll node` erases every entry of the node.  The real `TrieDB.UnsubscribeAll` does not do that for
-  shared entries (F19, owned by C02/C11); the `fedsession-f19` stream of C16 exhibits the difference.
+  `UnsubscribeAll node` erases every entry of the node.  (Before a8278d7 the real `TrieDB.UnsubscribeAll` did not do that
+  for shared entries — F19; stream `fedsession-shared` of C16 is the regression check.)
 -/
 namespace GmqttVerif.Fed
 
